@@ -21,7 +21,7 @@ RULE = ('threshold_proportional: all matrices over {0,1,2,3} on 1-2 nodes (p*cou
         'other utilities: all matrices over {-2,-1,0,1,2} on 3 nodes and symmetric on 4 nodes x thr in every value '
         'and midpoint; non-trivial = (matrix,p) where p*M falls on x.5, or where weights tie across the cut, or '
         'fewer connections exist than requested')
-ASSUMPTIONS = ['with copy=False the argument is passed C-ordered, Fortran-ordered and as a strided view (the contract and the values must not depend on layout)',
+ASSUMPTIONS = ['with copy=False the argument is passed C-ordered, Fortran-ordered, as a strided view, as float32 and as big-endian float64 (the contract and the values must not depend on layout or element type; float32 results are checked for the contract only)',
                'float64 inputs; p values are dyadic (exact products) or far from a .5 boundary',
                'expected count = round-half-up of the exact rational p*M']
 
@@ -131,6 +131,9 @@ def layouts(W):
     """the same matrix as a C-ordered array, a Fortran-ordered array and a strided view into a larger buffer"""
     yield 'C', W.copy()
     yield 'F', np.asfortranarray(W.copy())
+    # element types other than native float64 (the alphabets are small integers: exactly representable)
+    yield 'float32', W.astype(np.float32)
+    yield 'bigendian', W.astype('>f8')
     big = np.zeros((2 * W.shape[0], 2 * W.shape[1]))
     big[::2, ::2] = W
     yield 'strided', big[::2, ::2]
@@ -151,7 +154,7 @@ def _call_util(t, fname, case, f, W, arg, copy, *extra):
         t.viol(fname, 'raises', case, observed=out)
         return None
     check_copy(t, fname, case, arg, W, out, copy)
-    if case.get('layout') != 'C' and hasattr(f, '__name__') and f.__name__ in REF:
+    if case.get('layout') not in ('C', 'float32') and hasattr(f, '__name__') and f.__name__ in REF:
         # the result must not depend on the memory layout of the argument
         if not orc.close(np.asarray(out, dtype=float), REF[f.__name__](W, *extra)):
             t.viol(fname, 'definition', case, observed=out, expected=REF[f.__name__](W, *extra))
